@@ -183,7 +183,7 @@ func (x *Exec) externCall(st *State, fn *ssa.Function, args []Val, pos token.Pos
 			basic := func(t types.Type) bool {
 				switch u := t.Underlying().(type) {
 				case *types.Basic:
-					return u.Info()&(types.IsString|types.IsInteger|types.IsBoolean) != 0
+					return u.Info()&(types.IsString|types.IsInteger|types.IsBoolean|types.IsFloat) != 0
 				case *types.Slice:
 					b, ok := u.Elem().Underlying().(*types.Basic)
 					return ok && b.Kind() == types.String
@@ -376,6 +376,9 @@ func (x *Exec) registerExternSpecs() {
 	add("fmt_sprintf", []p{{"f", "Str", str}, {"a", "Seq_Iface", nil}}, "Str", str)
 	add("fmt_sprint", []p{{"a", "Seq_Iface", nil}}, "Str", str)
 	add("fmt_sprintln", []p{{"a", "Seq_Iface", nil}}, "Str", str)
+	add("strconv_Itoa", []p{{"i", "Int", nil}}, "Str", str)
+	add("strconv_FormatBool", []p{{"b", "Bool", nil}}, "Str", str)
+	add("strconv_Quote", []p{{"s", "Str", str}}, "Str", str)
 	add("err_msg", []p{{"e", "Iface", nil}}, "Str", str)
 	add("idx_byte", []p{{"s", "Str", str}, {"c", "Int", nil}}, "Int", nil)
 	// behaviour oracle of user callbacks: does the call of f made when the trace had length n return, and if not, what does it raise
